@@ -31,9 +31,12 @@ RULE = (
     "every entry of the operation menu (transform classes x views, core flow/image/bspline/linalg functions, "
     "every similarity / overlap / regularisation loss, functional and module) x D x every differentiable input x "
     "every scalar coordinate: autograd d<w,op>/dx_j vs central difference; distinct = (entry, D, input, coordinate); "
-    "non-trivial = |finite difference| exceeds 10x the comparison tolerance (the output really depends on the coordinate)"
+    "non-trivial = |finite difference| exceeds 10x the comparison tolerance (the output really depends on the coordinate); "
+    "for every entry additionally: the same call evaluated twice reproduces value and gradient (bit for bit for the "
+    "loss x mask-argument-subset x mask-dtype entries) and every argument (fixed images, masks of every dtype, module "
+    "buffers, differentiated inputs) keeps its bytes and autograd _version across the calls"
 )
-EXPLANATION = "full-Jacobian-row finite-difference check of every listed differentiable operation on the real code"
+EXPLANATION = "full-Jacobian-row finite-difference check of every listed differentiable operation on the real code, with repeat-call and argument-fingerprint guards"
 ASSUMPTIONS = [
     "inputs are float64 leaves; per input the mode is float64 (h = 1e-6, rtol 1e-6) when output dtype is float64 and the measured evaluation noise is < 1e-12 relative, else float32 (h = 2e-2, rtol 2e-2)",
     "tol = rtol * max|gradient of that input| + 64 * eps * sum|w_k out_k| / h with eps = 2^-52, or max(2^-23, 4 x measured noise) in float32 mode; a coordinate is a violation when |autograd - central difference| > 2 tol",
@@ -103,8 +106,9 @@ def bspline_shape(D, tier):
 
 # ---------------------------------------------------------------------------
 class Entry:
-    def __init__(self, name, inputs, fn, note="", storage=None):
+    def __init__(self, name, inputs, fn, note="", storage=None, bitwise=False):
         self.name = name
+        self.bitwise = bitwise  # repeat-call reproducibility demanded bit for bit (value and gradient)
         self.inputs = inputs  # OrderedDict name -> float64 leaf tensor (or nn.Parameter)
         self.fn = fn  # () -> Tensor | sequence | dict
         self.note = note
@@ -220,13 +224,28 @@ def _flat(t):
     return t.view(-1) if t.is_contiguous() else _Strided(t)
 
 
-def _mutation_check(name, D, res, snap_fixed, snap_inputs, inputs0):
-    for k, (v, b0) in snap_fixed.items():
+def _mutation_check(name, D, res, snap_fixed, snap_inputs, inputs0, versions_of_inputs=False):
+    """Fingerprint (bytes and autograd _version counter) of every argument: fixed tensors always; differentiated
+    inputs by bytes, and by _version only while the harness itself has not yet perturbed them."""
+    seen = {p_[0] for p_ in res["problems"]}
+    for k, (v, b0, ver0) in snap_fixed.items():
+        short = k.split(".")[-1].split("[")[-1].rstrip("]") if "[" in k else k.split(".")[-1]
         if tensor_bytes(v) != b0:
-            res["problems"].append((f"{name}/D={D}/input-mutated/{k.split('.')[-1].split('[')[0]}", f"tensor '{k}' handed to the operation (not differentiated) was modified in place by evaluating it"))
+            sig = f"{name}/D={D}/input-mutated/{short}"
+            if sig not in seen:
+                res["problems"].append((sig, f"tensor '{k}' handed to the operation (not differentiated) was modified in place by evaluating it"))
+        elif v._version != ver0:
+            sig = f"{name}/D={D}/input-written-in-place/{short}"
+            if sig not in seen:
+                res["problems"].append((sig, f"tensor '{k}' handed to the operation was written in place (_version {ver0} -> {v._version}) although its bytes ended up equal"))
     for k, t in inputs0:
-        if tensor_bytes(t) != snap_inputs[k]:
-            res["problems"].append((f"{name}/D={D}/input-mutated/wrt={k}", f"differentiated input '{k}' differs after all perturbations were undone: the operation modifies it in place"))
+        b0, ver0 = snap_inputs[k]
+        if tensor_bytes(t) != b0:
+            sig = f"{name}/D={D}/input-mutated/wrt={k}"
+            if sig not in seen:
+                res["problems"].append((sig, f"differentiated input '{k}' differs from its initial value: the operation modifies it in place"))
+        elif versions_of_inputs and t._version != ver0:
+            res["problems"].append((f"{name}/D={D}/input-written-in-place/wrt={k}", f"differentiated input '{k}' was written in place by the operation (_version {ver0} -> {t._version})"))
 
 
 def _noise(at, flat, n):
@@ -257,6 +276,12 @@ def check_entry(name, D, tab, tier):
     def run():
         return functional(ent.fn())
 
+    inputs0 = list(ent.inputs.items())
+    # by construction: nothing the operation is given may be modified by evaluating it (fingerprints are taken
+    # BEFORE the first call: bytes and autograd _version of every argument, masks and module buffers included)
+    fixed = _closure_tensors(ent.fn, {id(t) for _, t in inputs0} | {id(v) for v in ent.storage.values()})
+    snap_fixed = {k: (v, tensor_bytes(v), v._version) for k, v in fixed.items()}
+    snap_inputs = {k: (tensor_bytes(t), t._version) for k, t in inputs0}
     res["evals"] += 1
     st, r = guarded(run)
     if st == "raises":
@@ -264,12 +289,6 @@ def check_entry(name, D, tab, tier):
         return res
     L, S, mode = r
     res["mode"] = mode
-    inputs0 = list(ent.inputs.items())
-    # by construction: nothing the operation is given may be modified by evaluating it (a caller's image that is
-    # shifted by every call would silently corrupt every later evaluation, finite differences included)
-    fixed = _closure_tensors(ent.fn, {id(t) for _, t in inputs0} | {id(v) for v in ent.storage.values()})
-    snap_fixed = {k: (v, tensor_bytes(v)) for k, v in fixed.items()}
-    snap_inputs = {k: tensor_bytes(t) for k, t in inputs0}
     if not torch.isfinite(L):
         res["problems"].append((f"{name}/D={D}/forward/nonfinite", f"functional of the output is {float(L)}"))
         return res
@@ -281,6 +300,7 @@ def check_entry(name, D, tab, tier):
         st, grads = guarded(torch.autograd.grad, L, [t for _, t in inputs], allow_unused=True)
         if st == "raises":
             res["problems"].append((f"{name}/D={D}/backward/{raise_site(grads)}", "autograd.grad: " + exc_text(grads)))
+            _mutation_check(name, D, res, snap_fixed, snap_inputs, list(ent.inputs.items()), versions_of_inputs=True)
             return res
     # a second evaluation (forward + backward) must reproduce the first: state carried over between calls
     # (in-place edits of inputs, stale buffers) shows up here
@@ -306,6 +326,15 @@ def check_entry(name, D, tab, tier):
                     d12 = float((g1.detach().double() - g2.detach().double()).abs().max()) if g1.numel() else 0.0
                     if math.isfinite(gm) and math.isfinite(d12) and d12 > C * EPS[mode] * max(gm, S) * 8:  # NaN/inf gradients are reported as grad-nonfinite
                         res["problems"].append((f"{name}/D={D}/wrt={iname}/second-gradient-differs", f"max |g1 - g2| = {d12:.3e} between two identical evaluations (max |g| {gm:.3e})"))
+    if ent.bitwise:
+        if float(L2) != float(L):
+            res["problems"].append((f"{name}/D={D}/repeat-call-not-bitwise", f"the same call gave L = {float(L)!r} and then {float(L2)!r}"))
+        elif L.requires_grad and L2.requires_grad and st == "ok":
+            for (iname, t), g1, g2 in zip(inputs, grads, grads2):
+                if g1 is not None and g2 is not None and not torch.equal(g1.detach(), g2.detach()) and not (torch.isnan(g1).any() or torch.isnan(g2).any()):
+                    res["problems"].append((f"{name}/D={D}/wrt={iname}/repeat-gradient-not-bitwise", "two identical calls gave gradients that differ in at least one bit"))
+    # arguments untouched by two plain evaluations (before the harness perturbs anything itself)
+    _mutation_check(name, D, res, snap_fixed, snap_inputs, inputs0, versions_of_inputs=True)
     for (iname, t), g in zip(inputs, grads):
         n = t.numel()
         gad = np.zeros(n) if g is None else g.detach().double().reshape(-1).numpy().copy()
@@ -1521,6 +1550,79 @@ for _fn, _kw in (("lcc_loss", {"kernel_size": 3}), ("ncc_loss", {}), ("mse_loss"
 
     ENTRIES[f"loss-constant-regions/ImageTransformer(Translation)/{_fn}"] = (_b, (2,))
 
+
+# ---- every subset of the optional mask / weight arguments x mask dtype form, for the differentiable image losses ------
+MASKARG_DFORMS = ("bool", "uint8", "f32", "f32soft", "f64")
+MASKARG_LOSSES = (
+    ("wlcc_loss", {"kernel_size": 3}, ("mask", "source_mask", "target_mask")),
+    ("lcc_loss", {"kernel_size": 3}, ("mask",)), ("ncc_loss", {}, ("mask",)), ("mse_loss", {}, ("mask",)), ("ssd_loss", {}, ("mask",)),
+    ("mae_loss", {}, ("mask",)), ("huber_loss", {"delta": 0.4}, ("mask",)), ("smooth_l1_loss", {"beta": 0.4}, ("mask",)),
+    ("mi_loss", {"num_bins": 16, "vmin": -1.0, "vmax": 4.0}, ("mask",)), ("nmi_loss", {"num_bins": 16, "vmin": -1.0, "vmax": 4.0}, ("mask",)),
+    ("dice_loss", {}, ("weight",)), ("dice_score", {}, ("weight",)), ("tversky_index", {"alpha": 0.3, "beta": 0.7}, ("weight",)), ("tversky_loss", {}, ("weight",)),
+)
+
+
+def _mask_arg(arg, shape, dform, N=2):
+    """Mask argument of the given dtype form: distinct 0/1 patterns per argument (their product is a proper subset
+    of each), 'f32soft' scales the same support by {0.5, 1}."""
+    idx = torch.meshgrid(*[torch.arange(n) for n in shape], indexing="ij")
+    if arg in ("mask", "weight"):
+        m = idx[-1] < shape[-1] // 2 + 1
+    elif arg == "source_mask":
+        m = idx[-2] >= 1
+    else:
+        m = (idx[-1] + idx[-2]) > 0
+    m = m.to(torch.float64)
+    if dform == "f32soft":
+        m = m * (0.5 + 0.5 * (sum(idx) % 2).to(torch.float64))
+    # source_mask in the batch-broadcast form (1, 1, ...), the others per item (N, 1, ...): an in-place product written
+    # into either operand is then possible shape-wise for one order and a broadcast error for the other
+    m = m.expand((N, 1) + tuple(shape)).clone() if arg != "source_mask" else m.reshape((1, 1) + tuple(shape)).clone()
+    dt = {"bool": torch.bool, "uint8": torch.uint8, "f32": torch.float32, "f32soft": torch.float32, "f64": torch.float64}[dform]
+    return m.to(dt)
+
+
+def _mk_maskarg_entries():
+    import itertools
+
+    for fn, kw, names in MASKARG_LOSSES:
+        subsets = [c for r in range(1, len(names) + 1) for c in itertools.combinations(names, r)]
+        for sub_ in subsets:
+            for df in MASKARG_DFORMS:
+                dims = (2, 3) if (fn == "wlcc_loss" and df in ("f32", "f32soft")) else (2,)
+
+                def b(D, tab, tier, fn=fn, kw=kw, sub_=sub_, df=df):
+                    L_ = _Lf()
+                    shape = loss_shape(D, tier)
+                    seg = fn.startswith(("dice", "tversky"))
+                    if seg:
+                        x = leaf(torch.sigmoid((image(shape, tab, 120, C_=1, N=2) - 1.0) * 2))
+                        y = leaf(torch.sigmoid((image(shape, tab, 121, C_=1, N=2) - 1.0) * 3))
+                    else:
+                        x, y = _pair(D, tab, tier, 122)
+                    masks = {a: _mask_arg(a, shape, df) for a in sub_}
+                    kw2 = dict(kw)
+                    kw2.update(masks)
+                    return Entry(fn, OrderedDict(source=x, target=y), lambda: getattr(L_, fn)(x, y, **kw2), bitwise=True)
+
+                lab = fn + ("[" + ",".join(f"{k}={v}" for k, v in kw.items() if k not in ("vmin", "vmax")) + "]" if kw else "")
+                ENTRIES[f"loss-maskargs/{lab}/args={'+'.join(sub_)}/dtype={df}"] = (b, dims)
+    for sub_ in (("source_mask", "target_mask"), ("mask",), ("mask", "source_mask", "target_mask")):
+        for df in ("f32", "f32soft", "bool"):
+            def b(D, tab, tier, sub_=sub_, df=df):
+                import deepali.losses as LL
+
+                shape = loss_shape(D, tier)
+                x, y = _pair(D, tab, tier, 123)
+                m = LL.WLCC(kernel_size=3)
+                masks = {a: _mask_arg(a, shape, df) for a in sub_}
+                return Entry("WLCC", OrderedDict(source=x, target=y), lambda: m(x, y, **masks), bitwise=True)
+
+            ENTRIES[f"loss-maskargs/WLCC-module/args={'+'.join(sub_)}/dtype={df}"] = (b, (2,))
+
+
+_mk_maskarg_entries()
+
 # loss modules (same menu through the module wrappers)
 MODULE_LOSSES = (
     ("Dice", {}, "seg"), ("NCC", {}, "img"), ("LCC", {"kernel_size": 3}, "img"), ("WLCC", {"kernel_size": 3}, "img"), ("L1ImageLoss", {}, "img"),
@@ -1600,6 +1702,7 @@ def bounds(tier):
         "grid_shapes": {"D2": list(grid_shape(2, tier)), "D2_small": list(grid_shape(2, tier, True)), "D3": list(grid_shape(3, tier)), "D3_small": list(grid_shape(3, tier, True))},
         "step_and_rtol": {k: list(v) for k, v in STEP.items()},
         "tables": 1 if tier == "quick" else 2,
+        "mask_argument_entries": {"losses": len(MASKARG_LOSSES), "wlcc_subsets": 7, "dtype_forms": list(MASKARG_DFORMS)},
         "depth": 1,
     }
 
